@@ -14,7 +14,7 @@ pub struct Case {
 }
 
 pub fn strategy(max_targets: usize) -> impl Strategy<Value = Case> {
-    gen::raw_config(max_targets, 4, 0).prop_map(|raw| Case {
+    gen::raw_config(max_targets, 4, 2).prop_map(|raw| Case {
         config: gen::build_config(&raw, CycleMode::Any),
     })
 }
@@ -254,7 +254,7 @@ pub fn f11_case() -> Case {
 
 pub fn run(ctx: &mut Ctx) {
     ctx.rule = "in-process: target path sets (nested, disjoint, byte-prefix siblings, 1-3 components) x uses entries (targets, files and \
-directories inside targets, directories above targets, outside paths, prefix siblings) x declaration order; oracle: set equality of the \
+directories inside targets, directories above targets, outside paths, prefix siblings) x 0-2 ignores entries per target (which must not matter, also where they cover the target's own uses) x declaration order; oracle: set equality of the \
 index's edges with dep(T,U). CLI: the same through the file written by `target render` (in two thirds of the cases over an existing, longer rendering of another configuration). non-trivial = >=2 targets and a string-prefix-only \
 pair, or a uses entry above/inside a target; distinct by SHA-256 of the case"
         .to_string();
